@@ -741,11 +741,16 @@ fn expand_brace_range(tokens: &mut types::Tokens) {
             incr = 1;
         }
 
+        // the text around the braces is kept: a{1..3}b gives a1b a2b a3b
+        let (prefix, suffix) = match caps.get(0) {
+            Some(m) => (&token[..m.start()], &token[m.end()..]),
+            None => ("", ""),
+        };
         let mut result: Vec<String> = Vec::new();
         let mut n = start;
         if start > end {
             while n >= end {
-                result.push(format!("{}", n));
+                result.push(format!("{}{}{}", prefix, n, suffix));
                 n = match n.checked_sub(incr) {
                     Some(x) => x,
                     None => break,
@@ -753,7 +758,7 @@ fn expand_brace_range(tokens: &mut types::Tokens) {
             }
         } else {
             while n <= end {
-                result.push(format!("{}", n));
+                result.push(format!("{}{}{}", prefix, n, suffix));
                 n = match n.checked_add(incr) {
                     Some(x) => x,
                     None => break,
